@@ -1,6 +1,6 @@
 SPECIFICATION TSpec
 CONSTANTS
-  Accts = {1, 2}
+  Accts = {1, 2, 3}
   Vals = {1, 2}
   MaxOps = 1000000
   Rich = "rich"
